@@ -125,7 +125,10 @@ def node(depth, mode, max_depth=4, allow_pbar=False, allow_cast=True, extra=None
     if extra is not None:
         leaf = st.one_of(leaf, extra)
     if allow_pbar:
-        leaf = st.one_of(leaf, st.builds(lambda total, c, w, p: {"k": "pbar", "total": total, "completed": c, "width": w, "pulse": p}, st.integers(0, 100), st.integers(0, 120), st.one_of(st.none(), st.integers(1, 60)) if mode == "any" else st.none(), st.booleans()))
+        pstyle = st.sampled_from(["bar.back", "bar.complete", "on grey15", "dim", "bold", "red", "#00ff00 on blue", "none"])
+        pstyles = st.fixed_dictionaries({}, optional={"style": pstyle, "complete_style": pstyle, "finished_style": pstyle, "pulse_style": pstyle}) if mode == "any" else st.just({})
+        leaf = st.one_of(leaf, st.builds(lambda total, c, w, p, ps: dict({"k": "pbar", "total": total, "completed": c, "width": w, "pulse": p}, **({"styles": ps} if ps else {})), st.integers(0, 100), st.integers(0, 120),
+                                         st.one_of(st.none(), st.integers(1, 60)) if mode == "any" else st.none(), st.booleans(), pstyles))
     if depth >= max_depth:
         return leaf
     child = st.deferred(lambda: node(depth + 1, mode, max_depth, False, True, extra))       # under align/constrain/styled/group/bare
@@ -236,7 +239,7 @@ def build(n):
     if k == "bar":
         return Bar(n["size"], n["begin"], n["end"], width=n["width"])
     if k == "pbar":
-        return ProgressBar(total=n["total"], completed=n["completed"], width=n["width"], pulse=n["pulse"], animation_time=n.get("atime", 1.5))
+        return ProgressBar(total=n["total"], completed=n["completed"], width=n["width"], pulse=n["pulse"], animation_time=n.get("atime", 1.5), **n.get("styles", {}))
     if k == "group":
         return RenderGroup(*[build(c) for c in n["children"]], fit=n["fit"])
     if k in EXTRA_BUILDERS:
